@@ -60,7 +60,9 @@ TermEqV(a, b) ==           \* operator "=" : value equality within a family, RDF
   IF IsErr(a) \/ IsErr(b) THEN Err
   ELSE IF a.k = b.k /\ a.k \in {"num", "str", "bool"} THEN BoolV(a.v = b.v)
   ELSE IF a = b THEN TrueV
-  ELSE IF IsLit(a) /\ IsLit(b) THEN Err        \* two different literals that are not comparable: type error
+  \* two different literals: a type error only when a datatype is not understood ("lit"); literals of different
+  \* understood families (number / string / boolean) have disjoint value spaces and are simply unequal
+  ELSE IF IsLit(a) /\ IsLit(b) /\ (a.k = "lit" \/ b.k = "lit") THEN Err
   ELSE FalseV
 StrOrd(c, s) == IF s \in DOMAIN c.ord THEN c.ord[s] ELSE 0 - 1
 LessV(c, a, b) ==
@@ -164,6 +166,9 @@ EvalElts(elts, i, Om, c, outer) ==
                  IN LeftJoin(Om, B, LAMBDA m : AllHold(FS, m, c))
            [] e.t = "minus"  -> Minus(Om, EvalGroup(e.g, c, outer))
            [] e.t = "bind"   -> Extend(Om, e.v, LAMBDA m : EvalExpr(e.e, m, c))
+           \* named deviation KF_C04_pushdown (c.dev): a nested group joined after other elements is evaluated once per
+           \* solution so far, with that solution's bindings visible inside it (rdflib's lazy join)
+           [] e.t = "group" /\ c.dev -> Flatten([j \in 1..Len(Om) |-> EvalGroup(e.g, c, Om[j])])
            [] OTHER          -> Join(Om, EvalElt(e, c, outer)),
          c, outer)
 
